@@ -1,4 +1,64 @@
-(* C16 - placeholder statement file, replaced below *)
-From VJ Require Import Model.Str.
-Theorem C16_placeholder : True. Proof. exact I. Qed.
-Print Assumptions C16_placeholder.
+(* C16 - resolveType derives exactly the declared props and their requiredness. Statements only.
+   The end-to-end statement (the emitted `props` = the prop map the source encodes, for every
+   encoding) is decided on the REAL output of generated cases against the generator's ground
+   truth; the theorems are the laws of the resolver that make every encoding transparent. *)
+From VJ Require Import Model.Str Model.Json Model.Ast Model.State Model.Util Model.Types
+  Lemmas.NodeInd Lemmas.TypesProofs.
+
+(* every alias declared anywhere in the module - before or after the call, nested in a
+   function, exported - is in the registry before the transformation starts *)
+Theorem C16_registry_complete :
+  forall E m s n sym c ty, o_resolve_type (e_opts E) = true -> In n (subs m) -> alias_decl n sym c ty ->
+    reg_get sym c (aliases (collect_ts_decls E subs m s)) <> None.
+Proof. exact collect_sees_every_alias. Qed.
+Print Assumptions C16_registry_complete.
+
+(* an inline literal contributes exactly its members *)
+Theorem C16_literal : forall E f ms s,
+  rte E (S f) (gobj "TsTypeLiteral" [fld "members" (NArr ms)]) s = (refine_members ms, s).
+Proof. exact rte_literal. Qed.
+Print Assumptions C16_literal.
+
+(* aliases and parentheses are transparent; an intersection is the concatenation of its parts *)
+Theorem C16_alias_paren_intersection : forall E f sym c ps aliased a b t s,
+  (reg_get sym c (aliases s) = Some aliased -> rte E (S f) (tref sym c ps) s = rte E f aliased s)
+  /\ rte E (S f) (gobj "TsParenthesizedType" [fld "typeAnnotation" t]) s = rte E f t s
+  /\ rte E (S f) (gobj "TsIntersectionType" [fld "types" (NArr [a; b])]) s =
+     (let '(x, s1) := rte E f a s in let '(y, s2) := rte E f b s1 in (x ++ y, s2)).
+Proof.
+  intros. split; [apply rte_alias|]. split; [apply rte_paren|apply rte_intersection2].
+Qed.
+Print Assumptions C16_alias_paren_intersection.
+
+(* Partial / Required only flip the optional flag; Pick keeps exactly the listed keys *)
+Theorem C16_partial_required_pick : forall E f p o k s,
+  (reg_get (s_ "Partial") (e_unres E) (aliases s) = None -> reg_get (s_ "Partial") (e_unres E) (interfaces s) = None ->
+   rte E (S f) (tref (s_ "Partial") (e_unres E) [p]) s =
+   (let '(inner, s1) := rte E f p s in (map (set_optional true) inner, s1)))
+  /\ (reg_get (s_ "Required") (e_unres E) (aliases s) = None -> reg_get (s_ "Required") (e_unres E) (interfaces s) = None ->
+      rte E (S f) (tref (s_ "Required") (e_unres E) [p]) s =
+      (let '(inner, s1) := rte E f p s in (map (set_optional false) inner, s1)))
+  /\ (reg_get (s_ "Pick") (e_unres E) (aliases s) = None -> reg_get (s_ "Pick") (e_unres E) (interfaces s) = None ->
+      rte E (S f) (tref (s_ "Pick") (e_unres E) [o; k]) s =
+      (let '(keys, s1) := rsus E f k s in
+       let '(inner, s2) := rte E f o s1 in (filter (fun x => key_in keys x false) inner, s2))).
+Proof.
+  intros. split; [apply rte_partial|]. split; [apply rte_required|apply rte_pick].
+Qed.
+Print Assumptions C16_partial_required_pick.
+
+(* a first occurrence of a key becomes one entry, required unless declared optional *)
+Theorem C16_required_unless_optional : forall E irs s key computed optional tann k s1 types s2,
+  extract_prop_name key computed s = (k, s1) -> infer_ann E tann s1 = (types, s2) ->
+  ir_update k (fun ir => ir) irs = None ->
+  ir_step E (irs, s) (RProp key computed optional tann) =
+  (irs ++ [mkIr k (oset_extend [] types) (negb optional)], s2).
+Proof. exact ir_step_fresh_prop. Qed.
+Print Assumptions C16_required_unless_optional.
+
+(* a reference that resolves to nothing in the file is reported, never silently dropped *)
+Theorem C16_unresolved_reported : forall E f sym c ps s,
+  reg_get sym c (aliases s) = None -> reg_get sym c (interfaces s) = None -> N.eqb c (e_unres E) = false ->
+  exists d, snd (rte E (S f) (tref sym c ps) s) = set_diags (diags s ++ [d]) s.
+Proof. exact rte_unknown_reported. Qed.
+Print Assumptions C16_unresolved_reported.
